@@ -454,7 +454,35 @@ func (c *checker) oneRun(r runSpec, pool *solver.Pool, dump string) int {
 		jobs = append(jobs, j)
 		pend = append(pend, &pending{vc: vc, job: j})
 	}
+	var raceJob *solver.Job
+	var raceDesc string
+	if r.H.Func == "H_C19_masks" {
+		q, vars, desc := raceQuery(ex.Events)
+		raceDesc = desc
+		raceJob = &solver.Job{Label: "lock-discipline", Asserts: []*term.Term{q}, Want: vars}
+		jobs = append(jobs, raceJob)
+		nacc := 0
+		for _, e := range ex.Events {
+			if e.Kind == "access" {
+				nacc++
+			}
+		}
+		if nacc == 0 {
+			c.vacuous = append(c.vacuous, "no access to the shared generator was recorded in RandomID")
+		}
+	}
 	pool.Run(jobs)
+	if raceJob != nil {
+		res := vcResult{Run: r.String(), Label: "lock-discipline(2 threads x 1 call, all interleavings)", Kind: "assert", Verdict: raceJob.Out.Res.String(), Solver: raceJob.Out.Solver, Secs: raceJob.Out.Secs, Note: "events: " + raceDesc}
+		c.results = append(c.results, res)
+		switch raceJob.Out.Res {
+		case solver.Sat:
+			c.raceViolation(r, raceJob.Out.Model, raceDesc)
+		case solver.Unknown:
+			c.inconcl = append(c.inconcl, "lock-discipline query undecided: "+raceJob.Out.Note)
+		}
+		c.samples = append(c.samples, map[string]interface{}{"run": r.String(), "lock_discipline_events": raceDesc, "verdict": raceJob.Out.Res.String()})
+	}
 	// second round: violations that may be known findings
 	var jobs2 []*solver.Job
 	for _, p := range pend {
@@ -635,6 +663,68 @@ func (c *checker) handleViolation(r runSpec, vc *ssaexec.VC, model term.Model, d
 	return false
 }
 
+// raceViolation confirms a solver-found racy schedule with the race detector on the real build.
+func (c *checker) raceViolation(r runSpec, model term.Model, desc string) {
+	dir := filepath.Join(c.verif, "replays", c.prop)
+	os.MkdirAll(dir, 0o755)
+	path := filepath.Join(dir, "lock-discipline.json")
+	sched := map[string]uint64{}
+	for k, v := range model {
+		sched[k] = v
+	}
+	data, _ := json.MarshalIndent(map[string]interface{}{"property": c.prop, "kind": "race", "events": desc, "schedule_timestamps": sched,
+		"replay": "go test -race: 8 goroutines x 20000 calls of uu.RandomID"}, "", " ")
+	os.WriteFile(path, data, 0o644)
+	c.replays++
+	ok, out := runRaceReplay(c.repo)
+	if ok {
+		c.violations = append(c.violations, fmt.Sprintf("VIOLATION property=%s replay=%s", c.prop, path))
+		fmt.Printf("  racy schedule found by the solver and confirmed by the race detector (%s)\n", desc)
+	} else {
+		c.mismatch = append(c.mismatch, "solver found a racy schedule for RandomID but the race detector did not confirm it: "+lastLines(out, 4))
+	}
+}
+
+func runRaceReplay(repo string) (bool, string) {
+	tmp, err := os.MkdirTemp("", "symgo-race-")
+	if err != nil {
+		return false, err.Error()
+	}
+	defer os.RemoveAll(tmp)
+	test := `package uu
+
+import (
+	"sync"
+	"testing"
+)
+
+func TestVerifRace(t *testing.T) {
+	var wg sync.WaitGroup
+	for g := 0; g < 8; g++ {
+		wg.Add(1)
+		go func() {
+			defer wg.Done()
+			for i := 0; i < 20000; i++ {
+				_ = RandomID()
+			}
+		}()
+	}
+	wg.Wait()
+}
+`
+	f := filepath.Join(tmp, "race_test.go")
+	os.WriteFile(f, []byte(test), 0o644)
+	oj, _ := json.Marshal(map[string]interface{}{"Replace": map[string]string{filepath.Join(repo, "uu", "zz_verif_race_test.go"): f}})
+	ovPath := filepath.Join(tmp, "overlay.json")
+	os.WriteFile(ovPath, oj, 0o644)
+	cmd := exec.Command("go", "test", "-race", "-vet=off", "-count=1", "-run", "^TestVerifRace$", "-overlay", ovPath, "./uu")
+	cmd.Dir = repo
+	cmd.Env = append(os.Environ(), "GOFLAGS=-mod=mod", "GOPROXY=off", "GOSUMDB=off", "GOTOOLCHAIN=local", "CGO_ENABLED=1")
+	outB, _ := cmd.CombinedOutput()
+	out := string(outB)
+	return strings.Contains(out, "DATA RACE"), out
+}
+
 func lastLines(s string, n int) string {
 	ls := strings.Split(strings.TrimSpace(s), "\n")
 	if len(ls) > n {
@@ -734,6 +824,16 @@ func cmdReplay(args []string) int {
 	if err := json.Unmarshal(data, &rf); err != nil {
 		fmt.Println(err)
 		return 2
+	}
+	if rf.Kind == "race" {
+		ok, out := runRaceReplay(*repo)
+		fmt.Println(lastLines(out, 12))
+		if ok {
+			fmt.Printf("VIOLATION property=%s replay=%s\n", rf.Property, fs.Arg(0))
+			return 1
+		}
+		fmt.Println("not reproduced")
+		return 0
 	}
 	ok, out := runReplay(*repo, *verif, &rf)
 	fmt.Println(out)
